@@ -179,63 +179,41 @@ def op3(ctx):
         yield Ob(key_of("C09-Op3", b.path, "ok-return"), False, "expected one Ok return, found %d" % len(okret), b.loc())
         return
     okbb = okret[0]["bb"]
-    DATA = ("param", 2, "data")
+    # the exact condition of the Ok return: Ok implies each identification test iff every disjunct carries that test's literal
+    import dnf as D
+    cond = D.block_dnf(ev, res, b, okbb)
+    if not cond:
+        yield Ob(key_of("C09-Op3", b.path, "ok-return"), False, "the path condition of the Ok return could not be computed", b.loc())
+        return
+    FL = ("param", 0, "freelist")
+
+    def has(c, pred):
+        return any(pred(f) for f in c)
+
+    def is_ne_false(f, what):
+        # `a != b` is false / `a == b` is true, for the comparison `what` recognises
+        if f[0] == "bool" and tag(f[1]) == "call" and f[1][1].endswith("::ne") and f[2] is False and what(show(f[1])):
+            return True
+        if f[0] == "bool" and tag(f[1]) == "call" and f[1][1].endswith("::eq") and f[2] is True and what(show(f[1])):
+            return True
+        return False
+    tests = {
+        "freelist-decodes": lambda c: has(c, lambda f: f[0] == "discr" and "try_from" in show(f[1]) and f[2] in (("eq", 0), ("ne", (1,)))),
+        "freelist-equals-expected": lambda c: has(c, lambda f: is_ne_false(f, lambda s_: "try_from" in s_)) or
+                                              has(c, lambda f: (f[0] == "discr" and f[1] == FL and f[2] in (("eq", 0), ("ne", (1,)))) or
+                                                               (f[0] == "is" and f[1] == "is_some" and f[2] == FL and f[3] is False) or
+                                                               (f[0] == "is" and f[1] == "is_none" and f[2] == FL and f[3] is True)),
+        "magic-version": lambda c: has(c, lambda f: f[0] == "cmp" and f[1] == "Eq" and "from_le_bytes" in show(f) and mentions(f, ("param", 1, "magic_version"))),
+        "format-version": lambda c: has(c, lambda f: f[0] == "cmp" and f[1] == "Eq" and "from_le_bytes" in show(f) and not mentions(f, ("param", 1, "magic_version"))),
+        "magic-text": lambda c: has(c, lambda f: is_ne_false(f, lambda s_: "index(data, Range" in s_ and "constpath" in s_)),
+    }
     roles = {}
-    for x, c in res.conds.items():
-        s = show(c)
-        role = None
-        if "try_from" in s and tag(c) == "discr":
-            role = "freelist-decodes"
-        elif tag(c) == "call" and c[1].endswith("::ne") and "try_from" in s:
-            role = "freelist-equals-expected"
-        elif tag(c) == "cmp" and "from_le_bytes" in s and mentions(c, ("param", 1, "magic_version")):
-            role = "magic-version"
-        elif tag(c) == "cmp" and "from_le_bytes" in s:
-            role = "format-version"
-        elif tag(c) == "call" and c[1].endswith("::ne") and "index(data, Range" in s and "constpath" in s:
-            role = "magic-text"
-        if role is None:
-            continue
-        t = b.blocks[x]["term"]
-        tgts = set([bb for _, bb in t["arms"]] + [t["otherwise"]])
-        can = [y for y in tgts if okbb in b.reach(y)]
-        # exactly one edge may continue towards Ok, and it must be the 'match' edge
-        if role == "freelist-decodes":
-            match_val = 0  # Continue
-        elif tag(c) == "cmp":
-            match_val = 1 if c[1] == "Eq" else 0
-        else:
-            match_val = 0  # ne(..) == false
-        match_tgt = [bb for v, bb in t["arms"] if int(v) == match_val]
-        match_tgt = match_tgt[0] if match_tgt else t["otherwise"]
-        ok = can == [match_tgt]
-        # ... and the comparison guards the Ok return: without the matching edge (for the kind comparison: also without the 'no expectation given'
-        # edge of the switch on the expected Option) Ok is unreachable from the entry - no path may bypass the comparison
-        cut = {(x, match_tgt)}
-        if role == "freelist-equals-expected":
-            for y, c2 in res.conds.items():
-                if tag(c2) == "discr" and c2[1] == ("param", 0, "freelist"):
-                    t2 = b.blocks[y]["term"]
-                    for v, bb in t2["arms"]:
-                        if int(v) == 0:
-                            cut.add((y, bb))
-                    if not any(int(v) == 0 for v, _ in t2["arms"]):
-                        cut.add((y, t2["otherwise"]))
-        seen, stack = {0}, [0]
-        while stack:
-            u = stack.pop()
-            for w in b.succ[u]:
-                if (u, w) not in cut and w not in seen:
-                    seen.add(w)
-                    stack.append(w)
-        guarded = okbb not in seen
-        yield Ob(key_of("C09-Op3", b.path, role + "-guards-ok"), guarded, "%s: every path to the Ok return takes the matching edge of this comparison%s" %
-                 (role, " (or carries no expected kind)" if role == "freelist-equals-expected" else ""), b.loc(x))
+    for role, t_ in tests.items():
+        ok = all(t_(c) for c in cond)
         roles[role] = ok
-        yield Ob(key_of("C09-Op3", b.path, role), ok, "%s: only the matching edge reaches the Ok return (edges reaching Ok: %s, matching: bb%d)" % (role, can, match_tgt), b.loc(x))
-    for r in ("freelist-decodes", "freelist-equals-expected", "magic-version", "format-version", "magic-text"):
-        if r not in roles:
-            yield Ob(key_of("C09-Op3", b.path, r), False, "comparison for %s not found in sanity_check" % r, b.loc())
+        yield Ob(key_of("C09-Op3", b.path, role + "-guards-ok"), ok, "%s: every path condition of the Ok return (%d disjunct(s)) contains this test%s" %
+                 (role, len(cond), " (or carries no expected kind)" if role == "freelist-equals-expected" else ""), ctx.loc(okret[0]))
+        yield Ob(key_of("C09-Op3", b.path, role), ok, "%s: Ok implies the test" % role, ctx.loc(okret[0]))
     # the format version is compared against CURRENT_VERSION and the text against MAGIC_TEXT
     cv = [c for c in res.conds.values() if tag(c) == "cmp" and "from_le_bytes" in show(c) and not mentions(c, ("param", 1, "magic_version"))]
     ok_cv = bool(cv) and any(is_const(x) and x.c == 0 for x in (cv[0][2], cv[0][3]))
